@@ -258,7 +258,7 @@ def _check_reaction(res, rt, S, modes=None, stoich=True):
                     got = r.rate(dict(variables), substance_keys=list(keys)) if given else r.rate(dict(variables))
                 except Exception as e:
                     got = "EXC %s: %s" % (type(e).__name__, e)
-                key = "C03|Reaction.rate|substance_keys=%s|%s" % ("given" if given else "None", mode)
+                key = "C03|Reaction.rate|substance_keys=%s|k=%s" % ("given" if given else "None", kmode)
                 what = "Reaction(%r, %r, %r, inact_reac=%r, inact_prod=%r).rate(%s%s)" % (reac, prod, kparam, ir, ip, _show(variables), ", substance_keys=%r" % keys if given else "")
                 ok &= _cmp_rates(res, got, exp, given, (), key, what, case)
             if eff:
@@ -360,7 +360,7 @@ def _check_system(res, idxs, rts, S, pairs, specs=SPECS, only=None):
                         got = rsys.rates(dict(fvars if fed else variables), **kw)
                     except Exception as e:
                         got = "EXC %s: %s" % (type(e).__name__, e)
-                    key = "C03|ReactionSystem.rates|feed=%s|substance_keys=%s|%s" % (feed, "given" if given else "None", mode)
+                    key = "C03|ReactionSystem.rates|feed=%s|substance_keys=%s|k=%s" % (feed, "given" if given else "None", kmode)
                     if isinstance(got, str) and got.startswith("EXC KeyError") and fed and not given and any(s not in used for s in fed):
                         # a fed substance that occurs in no reaction: its rate is F*(c_feed - c), chempy has no entry to add it to
                         key = "C03|ReactionSystem.rates|feed|substance_keys=None|fed substance occurring in no reaction"
@@ -382,12 +382,12 @@ def _check_system(res, idxs, rts, S, pairs, specs=SPECS, only=None):
                 exp_r = M.per_reaction_rates(rts, kmodel, conc)
                 exp_f = M.system_rates(rts, kmodel, conc, order)
                 if isinstance(got, str) or len(rr) != len(exp_r) or not all(same(a, b) for a, b in zip(rr, exp_r)):
-                    k = "C03|law_of_mass_action_rates|%s|per-reaction rate" % mode
+                    k = "C03|law_of_mass_action_rates|k=%s|per-reaction rate" % kmode
                     res.violation(k, "law_of_mass_action_rates(%s, rsys[%s]) = %s, model %s" % (_show([conc[s] for s in order]), " ; ".join(_rt_str(rt, km) for rt, km in zip(rts, kmodel)), _show(rr) if rr is not None else got, _show(exp_r)),
                                   dict(case, expect_key=k), _show(rr) if rr is not None else got, _show(exp_r))
                     ok = False
                 elif len(got) != len(order) or not all(same(a, exp_f[s]) for a, s in zip(got, order)):
-                    k = "C03|dCdt_list|%s|per-substance derivative" % mode
+                    k = "C03|dCdt_list|k=%s|per-substance derivative" % kmode
                     res.violation(k, "dCdt_list(rsys[%s], rates) = %s, model %s (substance order %r)" % (" ; ".join(_rt_str(rt, km) for rt, km in zip(rts, kmodel)), _show(got), _show([exp_f[s] for s in order]), order),
                                   dict(case, expect_key=k), _show(got), _show([exp_f[s] for s in order]))
                     ok = False
